@@ -103,10 +103,32 @@ def parser_rules(ret_stmt, nret, whole):
         Rule(r'\bstrtoull\(', 'C09_strtoull(', regex=True, count=None),
         Rule(r'\bstrtod\(', 'C09_strtod(', regex=True, count=None),
         Rule(r'\bstrtof\(', 'C09_strtof(', regex=True, count=None),
+        FloatSwapOverloads(),
         Rule(r'\bfilename\.append\(1, ([^;]+)\);', r'vstr_push_back(&filename, \1);', regex=True, count=1),
         Rule('filename.clear();', 'vstr_clear(&filename);', count=1),
         Rule(r'return data;', ret_stmt, count='+'),
     ]
+
+
+class FloatSwapOverloads(Rule):
+    """bswap32f / bswap64f are overloaded in Encoding.hh (float -> uint32_t and uint32_t -> float, likewise for 64 bits): a call is
+    resolved from the declared type of its argument variable (nearest preceding declaration), as C++ overload resolution does;
+    the C names are those of the C03 leaf unit (bswap32f_f2u / _u2f, bswap64f_d2u / _u2d)."""
+
+    def __init__(self):
+        self.pat, self.count = 'bswapNNf overload resolution', None
+
+    def apply(self, text, where=''):
+        def rep(mo):
+            w, v = mo.group(1), mo.group(2)
+            decl = None
+            for d in re.finditer(r'\b(float|double|uint32_t|uint64_t)\s+%s\b' % re.escape(v), text[:mo.start()]):
+                decl = d.group(1)
+            sfx = {('32', 'float'): 'f2u', ('32', 'uint32_t'): 'u2f', ('64', 'double'): 'd2u', ('64', 'uint64_t'): 'u2d'}.get((w, decl))
+            if sfx is None:
+                raise ExtractionBreak('%s: cannot resolve bswap%sf(%s): argument declared %r' % (where, w, v, decl))
+            return 'bswap%sf_%s(%s)' % (w, sfx, v)
+        return re.sub(r'\bbswap(32|64)f\((\w+)\)', rep, text)
 
 
 def prelude_unit(ctx, src):
